@@ -173,10 +173,13 @@ def score_sets(draw, min_pos=0, min_neg=0, max_size=12, modes=ALL_MODES, mag=1e6
         elif mode in ("float", "ulp"):
             import numpy as np
 
-            pos = [float(np.float32(v)) for v in pos]
-            neg = [float(np.float32(v)) for v in neg]
-            if not all(math.isfinite(v) for v in pos + neg):
-                container = "f64"
+            with np.errstate(over="ignore"):
+                p32 = [float(np.float32(v)) for v in pos]
+                n32 = [float(np.float32(v)) for v in neg]
+            if all(math.isfinite(v) for v in p32 + n32):
+                pos, neg = p32, n32
+            else:
+                container = "f64"  # beyond the single-precision range: keep the float64 values
         else:
             container = "f64"  # 'distinct' must stay distinct
     return dict(pos=list(pos), neg=list(neg), ep=ep, en=en, mode=mode, arr=arr, container=container)
